@@ -78,3 +78,9 @@ class StatisticsShadow:
 def concrete(v):
     """solver-enumerated concrete value of a symbolic int (enumeration decision)"""
     return core.concretize(v.z) if core.is_sym(v) else v
+
+
+def accessor(attr):
+    """the function behind a property - or behind whatever descriptor a changed tree uses for it (cached_property, plain attribute): the
+    evidence lists its source either way and a harness module always imports"""
+    return getattr(attr, "fget", None) or getattr(attr, "func", None) or attr
